@@ -12,8 +12,11 @@ pub use acquisition_ledger::{AcquisitionExtras, AcquisitionLedger, AcquisitionLo
 
 use crate::error::CgtError;
 use crate::models::{GbpTransaction, Match, Operation, Section104Holding};
+#[cfg(cgt_verif)]
+use crate::verif_map::HashMap;
 use chrono::NaiveDate;
 use rust_decimal::Decimal;
+#[cfg(not(cgt_verif))]
 use std::collections::HashMap;
 
 /// Result of matching a disposal against acquisitions.
